@@ -4,8 +4,10 @@ import GdslModel.Gen.Traits
 open G.Traits
 
 def caps : String → Option Caps
-  | "both" => some ⟨true, true⟩ | "send" => some ⟨true, false⟩
-  | "sync" => some ⟨false, true⟩ | "none" => some ⟨false, false⟩ | _ => none
+  | "both" => some ⟨true, true, true⟩ | "send" => some ⟨true, false, true⟩
+  | "sync" => some ⟨false, true, true⟩ | "none" => some ⟨false, false, true⟩
+  | "borrowed" => some ⟨true, true, false⟩   -- Send + Sync but not 'static (a reference)
+  | _ => none
 def table : String → Option (List Def)
   | "digraph" => some Gen.digraph | "sync_digraph" => some Gen.sync_digraph
   | "ungraph" => some Gen.ungraph | "sync_ungraph" => some Gen.sync_ungraph | _ => none
